@@ -122,8 +122,8 @@ C02Viol(o, act, o2) ==
       hvExpected == LET g == CHOOSE g \in 0..(th - 1) : C[g + 1] = Par(nb[1])
                     IN  SubSeq(C, 1, g + 1) \o nb
   IN
-  (IF C # C2 /\ act.op # "Headers" THEN {"StoreChangedWithoutHeaders"} ELSE {})
-  \cup (IF act.op = "Headers" /\ \E i \in 1..Len(add) : ~InSeq(b, add[i])
+  (IF C # C2 /\ act.op \notin {"Headers", "ImportReset"} THEN {"StoreChangedWithoutHeaders"} ELSE {})
+  \cup (IF act.op \in {"Headers", "ImportReset"} /\ \E i \in 1..Len(add) : ~InSeq(b, add[i])
         THEN {"AdoptedNotFromBatch"} ELSE {})
   \cup (IF rem # <<>> /\ add # <<>> /\ f < LastCpReached(th)
         THEN {"ReorgBelowCheckpoint"} ELSE {})
@@ -152,7 +152,9 @@ C19Viol(o, act, o2) ==
       expD == [j \in 1..nrem |-> <<2, C[Len(C) + 1 - j], Len(C) - j, C[Len(C) - j]>>]
       ft  == o.f.tip[2]
       ft2 == o2.f.tip[2]
-      ncon == IF ft2 > ft /\ nrem = 0 THEN ft2 - ft ELSE 0
+      \* headers imported before the client starts are not announced (nobody can
+      \* be subscribed yet; a later subscriber gets them through the backlog)
+      ncon == IF ft2 > ft /\ nrem = 0 /\ act.op # "ImportReset" THEN ft2 - ft ELSE 0
       evD == SelectSeq(o2.ev, LAMBDA e : e[1] = 2)
       evC == SelectSeq(o2.ev, LAMBDA e : e[1] = 1)
       fOK == o2.f.tip[1] >= 0 /\ ft2 >= 0 /\ ft2 < Len(C2)
